@@ -27,15 +27,23 @@ VecSources == {VVec(<<>>)} \cup {VVec(<<a>>) : a \in Elems} \cup {VVec(<<a, b>>)
 MapSources == {VMap(<<>>)} \cup {VMap(<< <<S("a"), a>> >>) : a \in Elems} \cup {VMap(<< <<S("a"), a>>, <<S("b"), b>> >>) : a, b \in Elems}
               \cup {VMap(<< <<S("a"), a>>, <<S("b"), b>>, <<S("c"), d>> >>) : a, b, d \in {G, BK, BR}}
 
+\* the way in (From<T> for Value) for the types that have no way back: usize and f32
+InjectUsize == {VInt(z) : z \in {ZZero, ZOne, ZFromInt(65535), ZSub(ZPow2(31), ZOne), ZPow2(31), ZPow2(32), ZSub(ZPow2(63), ZOne), ZPow2(63),
+                                 ZAdd(ZPow2(63), ZOne), ZSub(ZPow2(64), ZFromInt(2)), ZSub(ZPow2(64), ZOne)}}
+InjectF32 == {VFloat(f) : f \in {FZero(1), FZero(-1), FNorm(1, <<3>>, -1), FNorm(-1, <<1>>, -149), FNorm(1, MSub(MPow2(24), <<1>>), 104),
+                                 FNorm(1, MFromNat(13421773), -27), FInf(1), FInf(-1), FNaN}}
 Init == c \in {[stage |-> 0, C |-> "", T |-> AllTargets[i]] : i \in 1..Len(AllTargets)}
+              \cup {[stage |-> 0, C |-> "inject", T |-> "usize"], [stage |-> 0, C |-> "inject", T |-> "f32"]}
               \cup {[stage |-> 0, C |-> cc, T |-> tt] : cc \in {"vec", "hmap", "bmap"}, tt \in {"i8", "u64", "i128", "string"}}
               \cup {[stage |-> 0, C |-> cc, T |-> "value"] : cc \in {"hmap", "bmap"}}
-SrcFor(cc) == IF cc.C = "" THEN Sources \cup (IF cc.T \in {"i8", "u8"} THEN RangeVals(-430, 560) ELSE {})
+SrcFor(cc) == IF cc.C = "inject" THEN (IF cc.T = "usize" THEN InjectUsize ELSE InjectF32)
+              ELSE IF cc.C = "" THEN Sources \cup (IF cc.T \in {"i8", "u8"} THEN RangeVals(-430, 560) ELSE {})
                                  \cup (IF Wide /\ cc.T \in {"i16", "u16"} THEN RangeVals(-33100, 65900) ELSE {})
               ELSE IF cc.C = "vec" THEN VecSources \cup {VMap(<<>>), I(1), VNone} ELSE MapSources \cup {VVec(<<>>), I(1), VNone}
 Next == c.stage = 0 /\ \E v \in SrcFor(c) : c' = [stage |-> 1, C |-> c.C, T |-> c.T, v |-> v]
 
-Outcome == IF c.C = "" THEN ExtractScalar(c.T, c.v) ELSE ExtractContainer(c.C, c.T, c.v)
+\* injection is total and exact: the Value holds exactly the number that went in
+Outcome == IF c.C = "inject" THEN Ok(c.v) ELSE IF c.C = "" THEN ExtractScalar(c.T, c.v) ELSE ExtractContainer(c.C, c.T, c.v)
 
 \* range-exact and kind-exact, stated directly
 ConversionExact ==
